@@ -1309,9 +1309,11 @@ func (c *Context) Reduce(d, x *Decimal) (int, Condition, error) {
 		return 0, res, err
 	}
 	neg := x.Negative
-	_, n := d.Reduce(x)
+	// Round first: rounding can carry (9.95 -> 10 at two digits) and so
+	// create trailing zeros, which must be removed as well.
+	res := c.round(d, x)
+	_, n := d.Reduce(d)
 	d.Negative = neg
-	res := c.round(d, d)
 	res, err := c.goError(res)
 	return n, res, err
 }
